@@ -671,6 +671,18 @@ def sink_call(run: Any, recv: V, m: str, args: list[Any], n: Any) -> Any:
     if len(items) > 3:
         raise Unsupported('effect with more than 3 components')
     items = items + [None] * (3 - len(items))
+    if m == 'is_alive' and recv.ty.name in getattr(run.p, 'live_sinks', ()):
+        # a thread handle: alive or not is up to the environment, except
+        # right after it was joined
+        b = z3.Bool(run.S.fresh_name('alive'))
+        prev = ex.Eff.kind(z3.Select(st.eff_arr, st.eff_len - 1))
+        st.assume(z3.Implies(
+            z3.And(st.eff_len >= 1,
+                   prev == ex.eff_kind('%s.join' % recv.ty.name)),
+            z3.Not(b),
+        ))
+        ex.log_effect(st, kind, *items)
+        return V(b, TBool)
     ex.log_effect(st, kind, *items)
     return ex.as_v(st, None)
 
